@@ -154,11 +154,12 @@ class BrokenCheck(Exception):
 class Job:
     """One exhaustive exploration: harness binary + parameters."""
 
-    def __init__(self, harness, args=None, defines=(), budget=300, shards=1, shard_depth=6, what="", witnesses=3, known=()):
+    def __init__(self, harness, args=None, defines=(), budget=300, shards=1, shard_depth=6, what="", witnesses=3, known=(), soft=False, allow_vacuous=False):
         self.harness, self.args, self.defines = harness, dict(args or {}), tuple(defines)
         self.budget, self.shards, self.shard_depth, self.what = budget, shards, shard_depth, what
         self.witnesses = witnesses
         self.known = tuple(known)
+        self.soft, self.allow_vacuous = soft, allow_vacuous
 
     @property
     def name(self):
@@ -307,6 +308,7 @@ def run_property(pid, tier, seed, spec, workdir, ev_path, a, t0):
     per_job, msgs = [], []
     tot = dict(paths=0, completed=0, aborted=0, branches=0, solver_calls=0, solver_s=0.0, checks=0, checks_unsat=0, concretisations=0)
     broken, violations, validated, samples = [], [], 0, []
+    soft_nov, vacuous = [], []
     abort_reasons = {}
     by_job = {}
     for r in results:
@@ -351,7 +353,7 @@ def run_property(pid, tier, seed, spec, workdir, ev_path, a, t0):
                 abort_reasons[k] = abort_reasons.get(k, 0) + v
             if not res["exhaustive"]:
                 agg["exhaustive"] = False
-                broken.append("%s: NO-VERDICT (%s) after %d paths" % (j.name, res.get("no_verdict"), res.get("paths", 0)))
+                (soft_nov if j.soft else broken).append("%s: NO-VERDICT (%s) after %d paths" % (j.name, res.get("no_verdict"), res.get("paths", 0)))
             viols += res.get("violations", [])
             wits += res.get("witnesses", [])
         for k in ("paths", "completed", "aborted", "branches", "solver_calls", "checks", "checks_unsat"):
@@ -360,7 +362,9 @@ def run_property(pid, tier, seed, spec, workdir, ev_path, a, t0):
         agg["solver_s"] = round(agg["solver_s"], 2)
         agg["wall_s"] = round(agg["wall_s"], 1)
         # vacuity: at least one completed path must have evaluated a check
-        if agg["exhaustive"] and (agg["completed"] == 0 or agg["checks"] == 0):
+        if agg["exhaustive"] and (agg["completed"] == 0 or agg["checks"] == 0) and j.allow_vacuous:
+            vacuous.append(j.name)
+        elif agg["exhaustive"] and (agg["completed"] == 0 or agg["checks"] == 0):
             broken.append("%s: BROKEN-HARNESS (vacuous: %d completed paths, %d checks)" % (j.name, agg["completed"], agg["checks"]))
         # witness validation: the real build must follow the same trace and compute the same numbers
         nval = 0
@@ -448,6 +452,8 @@ def run_property(pid, tier, seed, spec, workdir, ev_path, a, t0):
         "jobs": per_job, "build_s": round(t_build, 1), "build_log": build.log[-20:],
         "repo_tree_hash": build.repo_h,
         "not_concluded": broken,
+        "generated_jobs_not_concluded_outside_claim": soft_nov, "generated_jobs_vacuous_outside_claim": vacuous,
+        "jobs_concluded": sum(1 for x in per_job if x.get("exhaustive", True)), "jobs_total": len(per_job),
     }
     status = 0
     if violations:
